@@ -2146,19 +2146,27 @@ func SubAtom(vm *VM, atom, before, length, after, subAtom Term, k Cont, env *Env
 		}
 
 		pattern := tuple(before, length, after, subAtom)
-		var ks []func(context.Context) *Promise
-		for i := 0; i <= len(rs); i++ {
-			for j := i; j <= len(rs); j++ {
-				before, length, after, subAtom := Integer(i), Integer(j-i), Integer(len(rs)-j), NewAtom(string(rs[i:j]))
-				ks = append(ks, func(context.Context) *Promise {
-					return Unify(vm, pattern, tuple(before, length, after, subAtom), k, env)
-				})
-			}
-		}
-		return Delay(ks...)
+		return subAtomFrom(vm, rs, 0, 0, pattern, k, env)
 	default:
 		return Error(typeError(validTypeAtom, atom, env))
 	}
+}
+
+// subAtomFrom enumerates the sub atoms rs[i:j], rs[i:j+1], ..., rs[i+1:i+1], ... one at a time: building all
+// n*n/2 of them (and interning their names) in advance exhausts the memory for an atom of some 10 KB.
+func subAtomFrom(vm *VM, rs []rune, i, j int, pattern Term, k Cont, env *Env) *Promise {
+	if i > len(rs) {
+		return Bool(false)
+	}
+	return Delay(func(context.Context) *Promise {
+		before, length, after, subAtom := Integer(i), Integer(j-i), Integer(len(rs)-j), NewAtom(string(rs[i:j]))
+		return Unify(vm, pattern, tuple(before, length, after, subAtom), k, env)
+	}, func(context.Context) *Promise {
+		if j < len(rs) {
+			return subAtomFrom(vm, rs, i, j+1, pattern, k, env)
+		}
+		return subAtomFrom(vm, rs, i+1, i+1, pattern, k, env)
+	})
 }
 
 func checkPositiveInteger(n Term, env *Env) error {
